@@ -334,6 +334,37 @@ theorem defaultplugin_sets (c : DispCfg) (command name : Str) (methods : List St
       · simp only [hc, if_true]; exact lookup_setDefault _ _ _
       · simp [hc] at h
 
+theorem lookup_filter_ne (l : List (Str × Str)) (k : Str) :
+    (l.filter fun e => e.1 ≠ k).lookup k = none := by
+  induction l with
+  | nil => rfl
+  | cons e rest ih =>
+    by_cases h : e.1 = k
+    · simp [List.filter, h]
+      intro a b _ hne heq; exact hne heq.symm
+    · obtain ⟨a, b⟩ := e
+      have h' : (k == a) = false := by
+        simp only [beq_eq_false_iff_ne, ne_eq]; exact fun hh => h hh.symm
+      simp [List.filter, h, List.lookup, h']
+      intro a b _ hne heq; exact hne heq.symm
+
+/-- **`defaultplugin --remove <command>` that reports success leaves no default behind, and the
+owner's next choice is the default** — whatever was registered before the removal (a value read from
+the configuration file at start-up included: nothing of it survives the removal). -/
+theorem defaultplugin_remove_then_set (c : DispCfg) (command name : Str) (methods : List Str)
+    (hr : (ownerDefaultPlugin c true command none).2 = .ok)
+    (h : (ownerDefaultPlugin (ownerDefaultPlugin c true command none).1 false command
+            (some (name, methods))).2 = .ok) :
+    (ownerDefaultPlugin c true command none).1.defaults.lookup command = none ∧
+    (ownerDefaultPlugin (ownerDefaultPlugin c true command none).1 false command
+        (some (name, methods))).1.defaults.lookup command = some name := by
+  refine ⟨?_, defaultplugin_sets _ _ _ _ h⟩
+  unfold ownerDefaultPlugin at hr ⊢
+  simp only [if_true] at hr ⊢
+  cases hl : c.defaults.lookup command with
+  | none => simp [hl] at hr
+  | some v => exact lookup_filter_ne _ _
+
 /-! ### the small-step machine (`Machine.lean`): command bodies that use `irc` any number of times, threads -/
 
 /-- **On the machine, under every thread schedule and for every command body** (any number of
